@@ -90,12 +90,9 @@ def forged_signature(obj, auto=True, args=(), kwargs={}):
     forger = getattr(subject, '_sigtools__forger', None)
     if forger is not None:
         ret = forger(obj=subject)
-        if ret is not None:
-            if not isinstance(ret, _util.funcsigs.Signature):
-                # objects that make up any attribute asked of them
-                raise TypeError(
-                    'unexpected object {0!r} returned by the signature '
-                    'forger of {1!r}'.format(ret, obj))
+        # objects that make up any attribute asked of them (mocks) appear to
+        # carry a forger: what it returns is only used if it is a signature
+        if isinstance(ret, _util.funcsigs.Signature):
             return _signatures.UpgradedSignature._upgrade_with_warning(ret)
     if auto:
         try:
@@ -104,7 +101,7 @@ def forged_signature(obj, auto=True, args=(), kwargs={}):
             pass
         else:
             h = subject._sigtools__autoforwards_hint(subject)
-            if h is not None:
+            if _autoforwards.is_hint(h):
                 try:
                     ret = _autoforwards.autoforwards_ast(
                         *h, args=args, kwargs=kwargs)
